@@ -95,7 +95,6 @@ Definition parseEnumValuesDefinition (fuel : nat) : prog (list enumval) :=
   some BraceL BraceR (parseEnumValueDefinition fuel).
 
 Definition def0 : definition := mkDef KScalar [] [] [] [] [] [] [] pos0 false.
-Definition nil_ {A} (l : list A) : bool := match l with [] => true | _ => false end.
 
 (* the six type definitions and their extensions share this shape;
    ext = true for `extend ...` (no description, emptiness check) *)
